@@ -1325,10 +1325,21 @@ def run_and_check(c, rng=None):
     if err is not None:
         top = Bad("raise", "raised %r (cause %r) on a valid request" % (err, err.__cause__))
     else:
+        # P(alpha, y) is a value: a later call on the same object must not change an earlier result
+        # (a prox that hands out a cached work buffer makes Stack([P, P]) and solvers that keep results wrong)
+        kept = np.array(out, copy=True)
         try:
-            check_call(t, alpha, y0, np.asarray(out), cplx, rng)
-        except Bad as b:
-            top = b
+            P(alpha, y0 + (1.0 + 0.5j if cplx else 1.0))
+        except Exception:  # noqa
+            pass
+        if not np.array_equal(np.asarray(out), kept, equal_nan=True):
+            top = Bad("reuses-output-buffer", "a later call on the same Prox object overwrote an earlier result")
+            out = kept
+        if top is None:
+            try:
+                check_call(t, alpha, y0, np.asarray(out), cplx, rng)
+            except Bad as b:
+                top = b
     if top is None:
         return None, np.asarray(out)
     # blame: the deepest recorded call that fails its own certificate
